@@ -66,7 +66,7 @@ func writeMemberOps(w anyWriter, data []byte, ops []gen.Op) error {
 	for i, op := range ops {
 		switch op.K {
 		case "W":
-			n, err := w.Write(data[off : off+op.N])
+			n, err := writeReused(w, data[off:off+op.N])
 			if err != nil || n != op.N {
 				return fmt.Errorf("op %d Write(%d) = (%d, %v)", i, op.N, n, err)
 			}
